@@ -22,18 +22,34 @@ HEADER = "From Coq Require Import PrimFloat.\nFrom Verif Require Import Spec.Pdd
 CORR = "Corr.C01"
 
 
-def build_world(rng, w, n_states=1, calls_per_action=2, noise=True, name="dom"):
+def build_world(rng, w, n_states=1, calls_per_action=2, noise=True, name="dom", hints=None):
     objs = G.gen_objects(rng, w)
+    focus = [a for a in w.actions if hints and a["name"] == hints["focus"]]
+    if hints and hints.get("distinct_calls"):
+        # one more object per parameter of the focus action, so that calls with pairwise different arguments exist
+        objs = objs + [("ox%d" % i, t) for i, (_, t) in enumerate(focus[0]["params"])]
     tree = C.domain_tree(w, rng, name)
-    text = G.render(tree, rng, noise)
+    text = C.render2(tree, rng) if noise == 2 else G.render(tree, rng, noise)
     probes = []
-    for _ in range(n_states):
-        st = G.gen_state(rng, w, objs)
+    if hints:
+        n_states = 2 if hints.get("random_only") else 3
+    for k in range(n_states):
+        st = C.hinted_state(rng, w, objs, hints, k) if hints else G.gen_state(rng, w, objs)
         ptxt = G.problem_text(w, objs, st, domain=name)
         for a in w.actions:
+            if hints and k > 0 and a["name"] != hints["focus"]:
+                continue          # the other actions of a shaped world are probed on the first state only
             nwhen, nuniv = count_groups(a) if isinstance(a["eff"], list) and a["eff"] and a["eff"][0] == "and" else (0, 0)
+            limit = calls_per_action
+            if hints and a["name"] == hints["focus"]:
+                limit = hints.get("calls", calls_per_action)
             try:
-                calls = G.calls_for(rng, w, objs, a, limit=calls_per_action)
+                if hints and hints.get("distinct_calls"):
+                    # a fluent atom that repeats an OBJECT collapses at grounding (D07, open, property C20): not C01's subject
+                    calls = [c for c in G.calls_for(rng, w, objs, a, limit=10 ** 6)
+                             if len(set(c)) == len(c) and not set(c) & set(hints.get("avoid_args", []))][:limit]
+                else:
+                    calls = G.calls_for(rng, w, objs, a, limit=limit)
             except TypeError:
                 calls = []
             for args in calls:
@@ -41,6 +57,7 @@ def build_world(rng, w, n_states=1, calls_per_action=2, noise=True, name="dom"):
                                "perm_seed": 0, "nwhen": nwhen, "nuniv": nuniv})
     return {"domain_text": text, "objects": objs, "oof": w.oof, "oof_kind": w.oof_kind, "probes": probes,
             "features": sorted(w.features), "tree": tree, "source": "generated",
+            "shape": hints["tag"] if hints else None,
             "oof_action": getattr(w, "oof_action", "") if w.oof and w.oof_kind not in VOCAB_KINDS else ""}
 
 
@@ -90,9 +107,10 @@ def generate(rng, tier):
     worlds = []
     n_in = {"quick": 60, "thorough": 400}[tier]
     per_kind = {"quick": 2, "thorough": 8}[tier]
-    for _ in range(n_in):
+    per_shape = {"quick": 1, "thorough": 4}[tier]
+    for i in range(n_in):
         w = G.gen_world(rng, max_actions=3)
-        worlds.append(build_world(rng, w))
+        worlds.append(build_world(rng, w, noise=2 if i % 4 == 3 else True))
     planted = {}
     for kind in C.PLANTERS:
         done, tries = 0, 0
@@ -103,7 +121,18 @@ def generate(rng, tier):
                 worlds.append(build_world(rng, w, noise=(done % 2 == 1)))
                 done += 1
         planted[kind] = done
-    return worlds, planted
+    shaped = {}
+    for key in C.SHAPES:
+        done, tries = 0, 0
+        while done < per_shape and tries < 50:
+            tries += 1
+            w = G.gen_world(rng, max_actions=2)
+            hints = C.shape(rng, w, key)
+            if hints:
+                worlds.append(build_world(rng, w, noise=[False, True, 2][(done + len(shaped)) % 3], hints=hints))
+                done += 1
+        shaped[key] = done
+    return worlds, planted, shaped
 
 
 def run(args):
@@ -112,21 +141,22 @@ def run(args):
         clean_replays()
     standard_proof_part(rep, PROP)
     rng = random.Random(args.seed * 104729 + 1)
-    planted = {}
+    planted, shaped = {}, {}
     if args.replay:
         data = json.load(open(args.replay))
         worlds = [data["input"]["world"]]
         for wd in worlds:
             wd.setdefault("source", "replay")
     else:
-        gen, planted = generate(rng, args.tier)
+        gen, planted, shaped = generate(rng, args.tier)
         worlds = corpus_worlds() + gen + fixture_worlds()
     cfg = run_impl([{"op": "core.numeric_config"}], nproc=1)[0]
     hashseeds = [0] if args.tier == "quick" else [0, 1]
     all_cases, all_verdicts, info_total = [], "", {"shards": 0, "shard_errors": [], "cmd": ""}
     stats = {"worlds": 0, "by_source": {}, "parsed": 0, "parse_raised": 0, "probes": 0, "app_true": 0, "app_false": 0,
              "app_raised": 0, "succ_returned": 0, "succ_refused_or_raised": 0, "features": {}, "oof_planted": planted,
-             "oof_outcomes": {}, "fixtures": {}, "productions": {}}
+             "oof_outcomes": {}, "fixtures": {}, "productions": {},
+             "shapes_planted": shaped, "shape_outcomes": {}}
     for hs in hashseeds:
         results = run_worlds(worlds, hashseed=hs)
         lits, units = [], []
@@ -142,7 +172,7 @@ def run(args):
         flat = flatten_units(worlds, results)
         for u, ch in zip(flat, verdicts):
             wd, res = worlds[u["world"]], results[u["world"]]
-            inp = {"world": {k: wd.get(k) for k in ("domain_text", "objects", "oof", "oof_kind", "oof_action", "probes", "features", "source")},
+            inp = {"world": {k: wd.get(k) for k in ("domain_text", "objects", "oof", "oof_kind", "oof_action", "probes", "features", "source", "shape")},
                    "unit": u, "hashseed": hs,
                    "implementation": (res.get("probes", [None] * (u.get("probe", 0) + 1))[u["probe"]] if "probe" in u
                                       else {k: res.get(k) for k in ("vocab", "parse_raised")})}
@@ -189,6 +219,19 @@ def run(args):
                             o["use-raised"] += 1
                         else:
                             o["returned"] += 1
+                if wd.get("shape"):
+                    fam = wd["shape"].split(":")[0]
+                    o = stats["shape_outcomes"].setdefault(fam, {"worlds": 0, "parse-raised": 0, "focus_probes": 0, "app_true": 0,
+                                                                 "app_false": 0, "app_raised": 0, "succ_returned": 0})
+                    o["worlds"] += 1
+                    if raised:
+                        o["parse-raised"] += 1
+                    else:
+                        for pr, r in zip(wd["probes"], res["probes"]):
+                            o["focus_probes"] += 1
+                            av = r.get("app", {})
+                            o["app_true" if av.get("value") is True else "app_false" if av.get("value") is False else "app_raised"] += 1
+                            o["succ_returned"] += 1 if "value" in r.get("succ", {}) else 0
                 if raised:
                     stats["parse_raised"] += 1
                     continue
